@@ -302,7 +302,7 @@ def reward_list(policy, sc, n_inner=None):
     if policy == "ones":
         return [[1 if s in nonabs else 0 for s in range(n)]]
     if policy.startswith("all"):
-        values = {"all01": (0, 1), "all012": (0, 1, 2)}[policy]
+        values = {"all01": (0, 1), "all012": (0, 1, 2), "allmixed": (0, 0.5, 7)}[policy]
         out = []
         for combo in itertools.product(values, repeat=len(nonabs)):
             r = [0] * n
